@@ -136,7 +136,7 @@ def task_sw_jet(ctx, cfg, nlayers, degree):
               config=dict(grid=grids.cfg_name(cfg), layers=nlayers, jet_degree=degree), scale_floor=1.0, twin=False)
 
 
-def task_reference(ctx, cfg, levels, lname, lmax, tname, tref):
+def task_reference(ctx, cfg, levels, lname, lmax, tname, tref, tref_dtype='float64'):
   """Total tendency of the dry equations equals the independent weak-form reference model (c05_reference.py) on
   alias-free inputs: every coefficient with l <= lmax symbolic (state, all levels), orography and T_ref concrete."""
   from dinosaur import primitive_equations as pe
@@ -150,7 +150,9 @@ def task_reference(ctx, cfg, levels, lname, lmax, tname, tref):
   sup = grid.mask & (l <= lmax)
   oro = rng.uniform(-0.3, 0.3, grid.modal_shape) * sup
   tref = np.asarray(tref, float)
-  eq = pe.PrimitiveEquations(tref, oro, coords, specs)
+  # the equations receive the profile in the dtype the user supplied (integer-valued profiles given as integers included); the reference
+  # model always works with the real values
+  eq = pe.PrimitiveEquations(tref.astype(np.dtype(tref_dtype)), oro, coords, specs)
   ref = Reference(grid, cfg, levels, R=specs.R, kappa=specs.kappa, g=specs.g, omega=specs.angular_velocity, tref=tref, orography_modal=oro)
   ctx.encoded(pe.PrimitiveEquations.explicit_terms, pe.PrimitiveEquations.implicit_terms, pe.compute_diagnostic_state, pe.PrimitiveEquations.curl_and_div_tendencies,
               pe.PrimitiveEquations.nodal_temperature_adiabatic_tendency, pe.PrimitiveEquations.nodal_temperature_vertical_tendency, pe.PrimitiveEquations._t_omega_over_sigma_sp,
@@ -162,7 +164,7 @@ def task_reference(ctx, cfg, levels, lname, lmax, tname, tref):
   def both(v, d, t, p):
     return _total(eq, 'dry', v, d, t, p), ref.tendency(v, d, t, p)
   prove_close(ctx, 'reference.total_tendency_equals_pointwise_continuous_equations', both, xs, sp,
-              config=dict(grid=grids.cfg_name(cfg), levels=lname, lmax=lmax, tref=tname), scale_floor=1.0)
+              config=dict(grid=grids.cfg_name(cfg), levels=lname, lmax=lmax, tref=tname, **({'tref_dtype': tref_dtype} if tref_dtype != 'float64' else {})), scale_floor=1.0)
 
 
 def task_reference_sw(ctx, cfg, nlayers, lmax, with_orography=True):
@@ -251,6 +253,7 @@ def make_tasks(tier, seed):
   tasks.append(dict(name='moist-eq-dry', fn='task_moist_equals_dry', kw=dict(cfg=cfg, levels=LS['dy2'].tolist(), lname='dy2')))
   refg = dict(M=3, L=6, nlon=16, nlat=8, radius=1.3)
   tasks.append(dict(name='reference-l1', fn='task_reference', kw=dict(cfg=refg, levels=LS['dy3'].tolist(), lname='dy3', lmax=1, tname='linear', tref=np.linspace(0.8, 1.5, 3).tolist())))
+  tasks.append(dict(name='reference-l1-integer-tref', fn='task_reference', kw=dict(cfg=refg, levels=LS['dy3'].tolist(), lname='dy3', lmax=1, tname='integer-valued', tref=[1, 2, 4], tref_dtype='int64')))
   tasks.append(dict(name='reference-sw-2layer-l1', fn='task_reference_sw', kw=dict(cfg=refg, nlayers=2, lmax=1)))
   if tier != 'quick':
     tasks.append(dict(name='reference-sw-3layer-l2', fn='task_reference_sw', kw=dict(cfg=dict(M=4, L=8, nlon=22, nlat=11), nlayers=3, lmax=2)))
